@@ -132,6 +132,7 @@ class Run:
         self.actions: list[tuple[str, Action]] = []     # every action that exists, in creation order
         self.steps: list[dict] = []
         self._last: list | None = None
+        self.finals: list = []          # the resulting action of each program
 
     # ---- facts about objects
     def ident(self, n) -> str:
@@ -171,6 +172,8 @@ class Run:
             e["A2"] = A.map(CALL["par1"])
         if "B2" in refs:
             e["B2"] = B.map(CALL["par2"])
+        if "Y" in refs:         # a generator source: one node with three outputs, spread over the dimension y
+            e["Y"] = from_source([srcD0], yields=("y", [0, 1, 2]), dims=["x"], coords={"x": [0]})
         if "E" in refs:
             e["E"] = from_source([srcE0, srcE1, srcE2, srcE3], dims=["x"], coords={"x": [0, 1, 2, 3]})
         if any(r[:1] in ("F", "G", "Z") for r in refs):          # slices that keep the selected label as a scalar coordinate
@@ -257,6 +260,7 @@ class Run:
             cur = self.step(op, cur, e)
             if cur is None:
                 break
+        self.finals.append(cur)
         return [] if cur is None else [str(getattr(n, "name", n.parent.name if isinstance(n, Output) else "?"))
                                        for n in np.atleast_1d(cur.nodes.values).flatten().tolist()]
 
@@ -272,10 +276,11 @@ class Run:
         return [self.program(case["p"], "", {}), self.program(case["q"], "", {})]
 
     # ---- every node object reachable from any action
-    def nodes(self) -> list[dict]:
+    def nodes(self, roots: list | None = None) -> list[dict]:
+        """Descriptions of every node object reachable from all actions (or from the given root nodes)."""
         seen: dict[int, BaseNode] = {}
-        stack = []
-        for _, a in self.actions:
+        stack = list(roots) if roots is not None else []
+        for _, a in (self.actions if roots is None else []):
             for n in np.atleast_1d(a.nodes.values).flatten().tolist():
                 stack.append(n.parent if isinstance(n, Output) else n)
         while stack:
@@ -293,12 +298,34 @@ class Run:
         return sorted(out, key=lambda d: (d["name"], d["fid"], d["args"], d["kwargs"], d["inputs"]))
 
 
+def union(run: Run, how: str, actions: list) -> tuple[list[dict], list[dict]]:
+    """The node descriptions of the given actions before the union, and those of the union graph."""
+    from earthkit.workflows import Cascade
+
+    roots = []
+    for a in actions:
+        roots += [n.parent if isinstance(n, Output) else n for n in np.atleast_1d(a.nodes.values).flatten().tolist()]
+    pre = run.nodes(roots)
+    if how == "from_actions":
+        c = Cascade.from_actions(actions)
+    elif how == "add":
+        c = Cascade.from_actions(actions[:1])
+        for a in actions[1:]:
+            c = c + Cascade.from_actions([a])
+    else:
+        c = Cascade.from_actions(actions[:1])
+        for a in actions[1:]:
+            c += Cascade.from_actions([a])
+    return pre, run.nodes(list(c._graph.sinks))
+
+
 FUNCS = Registry()      # callable identity -> small integer, stable over the whole run (names are compared across cases)
 
 
 def observe(case: dict) -> dict:
     funcs = FUNCS
     builds, nodes, steps = [], [], []
+    pres, unis = [], []
     shared = payloads()
     refs = {op["o"] for op in list(case["p"]) + list(case["q"])} | {case["start"]}
     for _ in range(2):                      # two independent builds of the same case
@@ -311,6 +338,10 @@ def observe(case: dict) -> dict:
             if case["q"]:
                 names.append(run.program(case["q"], case["start"], e))
         builds.append(names)
+        if case.get("union"):   # the union of the source and of what the programs built (de-duplicates, in place)
+            pre, uni = union(run, case["union"], [e[case["start"]]] + [a for a in run.finals if a is not None])
+            pres += pre
+            unis += uni
         nodes += run.nodes()
         steps += run.steps
     # the same node may be listed by both builds only if it is the same description
@@ -318,4 +349,7 @@ def observe(case: dict) -> dict:
     for n in nodes:
         if n not in uniq:
             uniq.append(n)
-    return {"nodes": uniq, "build1": builds[0], "build2": builds[1], "steps": steps}
+    res = {"nodes": uniq, "build1": builds[0], "build2": builds[1], "steps": steps}
+    if case.get("union"):
+        res["pre"], res["uni"] = pres, unis
+    return res
